@@ -81,9 +81,9 @@ impl Socket {
 
 // ---- R-lock: std::sync::Mutex stand-in; the value behind it is arbitrary at every lock (another task may have changed it)
 pub struct Mutex<T> { t: T }
-impl<T> Mutex<T> {
+impl Mutex<RoutingTable> {
     #[verifier::external_body]
-    pub fn lock(&self) -> (r: Result<&mut T, ()>) ensures r is Ok { unimplemented!() }
+    pub fn lock(&self) -> (r: Result<&mut RoutingTable, ()>) ensures r is Ok { unimplemented!() }
 }
 
 // ---- routing table stand-ins: every mutation is an event (contracts of the real functions: unit `routing`)
@@ -112,7 +112,7 @@ impl<'a> vstd::std_specs::iter::IteratorSpecImpl for ClosestNodes<'a> {
     uninterp spec fn decrease(&self) -> Option<nat>;
     uninterp spec fn peek(&self, index: int) -> Option<Self::Item>;
 }
-pub struct RoutingTable { pub node_id: NodeId }
+pub struct RoutingTable { pub node_id: NodeId, pub routers: HashSet<SocketAddr> }
 impl RoutingTable {
     #[verifier::external_body]
     pub fn find_node_mut<'a>(&'a mut self, node: &'_ NodeHandle, Tracked(tr): Tracked<&mut Trace>) -> (r: Option<&'a mut Node>)
@@ -204,6 +204,13 @@ pub assume_specification<T, E> [std::result::Result::<T, E>::unwrap_or] (r: std:
 pub mod mpsc {
     use super::*;
     pub struct UnboundedSender<T> { pub t: core::marker::PhantomData<T> }
+    pub struct UnboundedReceiver<T> { pub t: core::marker::PhantomData<T> }
+    #[verifier::external_body]
+    pub fn unbounded_channel<T>() -> (UnboundedSender<T>, UnboundedReceiver<T>) { unimplemented!() }
+    impl<T> UnboundedReceiver<T> {
+        #[verifier::external_body]
+        pub fn recv(&mut self) -> Option<T> { unimplemented!() }
+    }
     impl UnboundedSender<SocketAddr> {
         #[verifier::external_body]
         pub fn send(&self, v: SocketAddr, Tracked(tr): Tracked<&mut Trace>) -> (r: Result<(), ()>)
@@ -214,14 +221,6 @@ pub mod mpsc {
 // TRUSTED: derived Hash/Eq on NodeHandle and TransactionID (plain data) agree
 pub broadcast axiom fn nodehandle_key_model() ensures #[trigger] obeys_key_model::<NodeHandle>();
 pub broadcast axiom fn tid_key_model() ensures #[trigger] obeys_key_model::<TransactionID>();
-// ---- message id generator: stand-in carrying the contract proved in unit `txid` (every id has the generator's 5-byte action prefix)
-pub struct MIDGenerator { pub action_id: u64 }
-impl MIDGenerator {
-    #[verifier::external_body]
-    pub fn action_id(&self) -> (r: ActionID) ensures r.action_id == self.action_id >> 24 { unimplemented!() }
-    #[verifier::external_body]
-    pub fn generate(&mut self) -> (r: TransactionID) ensures final(self).action_id == old(self).action_id, tid_value(r) >> 24 == old(self).action_id >> 24 { unimplemented!() }
-}
 impl InfoHash {
     // flip_bit panics for index >= 160 (info_hash.rs:78-87): the precondition is an obligation at every call site
     #[verifier::external_body]
